@@ -24,7 +24,7 @@ use std::path::{Path, PathBuf};
 use std::sync::{Mutex, OnceLock};
 
 const PROP: &str = "C06";
-pub const READ_BUDGET: u32 = 6_000;
+pub const READ_BUDGET: u32 = 200_000;
 pub const PIPELINES: &[&str] = &["build", "analysis", "lsp", "format"];
 
 fn fragments() -> &'static Vec<String> {
@@ -649,8 +649,9 @@ pub fn execute(c: &Case, stats: &mut RunStats) -> Option<Found> {
             f
         })
         .collect();
-    // logical clock for loops over the file system (import discovery): a project of <= 5 files
-    // with a few dozen import statements needs a few hundred reads at most
+    // logical clock for loops over the file system (import discovery). Not small: a macro that imports a file
+    // 32 levels deep, in a project whose passes only end at the cap of 256, legitimately reads 10 000 times
+    // (a budget of 6 000 was a false alarm under VERIF_SEED=1, found by a seed sweep)
     d.read_budget = Some(READ_BUDGET);
     let paths: BTreeSet<PathBuf> = d.files.keys().cloned().collect();
     disk::install(d);
